@@ -12,7 +12,7 @@ import (
 
 // C08 — decoding is independent of how the transport segments the byte stream.
 func C08(c *vk.Ctx) {
-	c.Rule("server streams = all scripts of length <= n (quick 2, thorough 3) over the C03 packet alphabet, rendered at revisions 54460 and 54405, plain and LZ4, typed and Auto binding; segmentations of each stream: one byte per read, every two-piece split (all offsets), the same deliveries with the server closing right after its last byte and the transport returning the end of the stream together with the last bytes (n > 0 with io.EOF, as crypto/tls does), every two-piece split with 2 s of idle time before each piece (each wait inside the read timeout, the packet as a whole not), an idle gap longer than the read timeout before every packet (clock steps, read deadline fires and is retried), also under a context whose deadline is an hour away, every two-piece split and bytewise delivery on a client with a past (connected longer ago than the handshake time-out; an earlier query under a 10 s context whose deadline has passed since), for streams <= 16 bytes all 2^(n-1) segmentations, and (thorough) every three-piece split of streams <= 96 bytes. Each case is one execution of the real Connect + Do; oracle: callback trace and return value equal the reference interpreter's, i.e. the unsegmented outcome. distinct_nontrivial = (stream, segmentation) cases.")
+	c.Rule("server streams = all scripts of length <= n (quick 2, thorough 3) over the C03 packet alphabet, rendered at revisions 54460 and 54405, plain and LZ4, typed and Auto binding; segmentations of each stream: one byte per read, every two-piece split (all offsets), the same deliveries with the server closing right after its last byte and the transport returning the end of the stream together with the last bytes (n > 0 with io.EOF, as crypto/tls does), every two-piece split with 2 s of idle time before each piece (each wait inside the read timeout, the packet as a whole not), an idle gap longer than the read timeout before every packet (clock steps, read deadline fires and is retried), also under a context whose deadline is an hour away, every two-piece split and bytewise delivery on a client with a past (connected longer ago than the handshake time-out; an earlier query under a 10 s context whose deadline has passed since), for streams <= 16 bytes all 2^(n-1) segmentations, and (thorough) every three-piece split of streams <= 96 bytes. Each case is one execution of the real Connect + Do; oracle: callback trace and return value equal the reference interpreter's, i.e. the unsegmented outcome; and (all groups but the gap, idle and end-of-stream ones) a Ping issued on the same client afterwards, answered by the peer once it has seen it, ends the same way as after the same stream delivered in one piece (what Do left unread is the same bytes wherever they sit: transport or read-ahead buffer). distinct_nontrivial = (stream, segmentation) cases.")
 	quick := c.Quick()
 	maxLen := 2
 	if !quick {
@@ -37,15 +37,35 @@ func C08(c *vk.Ctx) {
 		}
 	}
 	rec(nil)
+	// the request after the one under test: its outcome with the stream delivered in one
+	// piece is the reference for every other segmentation of the same stream
+	followRef := map[string]string{}
 	run := func(k c03case, sg seg, group, segID string) {
 		id := k.id() + "/seg=" + segID
 		if !c.Next(id) {
 			return
 		}
 		c.Current(id)
+		sg.follow = !sg.gaps && !sg.closing && sg.inner == 0
 		x := RunOnce(nil, c.Only != "", body03seg(k, sg, "C08"))
 		e := &Explorer{Scenario: id, KeyBase: "C08/engine"}
 		key, detail := e.verdict(&x)
+		if key == "" && sg.follow {
+			ref, ok := followRef[k.id()]
+			if !ok {
+				rx := RunOnce(nil, false, body03seg(k, seg{follow: true}, "C08"))
+				if rk, _ := e.verdict(&rx); rk == "" {
+					ref = rx.Out.Aux
+				} else {
+					ref = "?" // the undivided delivery fails on its own: reported by the two-piece group, nothing to compare with here
+				}
+				followRef[k.id()] = ref
+				c.Eval("next-request-reference", 1)
+			}
+			if ref != "?" && x.Out.Aux != ref {
+				key, detail = "C08/next-request-differs", fmt.Sprintf("the Ping issued on the same client after Do ended with %q; with the same server stream delivered in one piece it ends with %q", x.Out.Aux, ref)
+			}
+		}
 		c.Eval(group, 1)
 		c.DistinctN(1)
 		c.Outcome(x.Out.Obs)
